@@ -384,7 +384,7 @@ Final ==
   /\ pc' = "done"
   /\ IF IsAgg /\ mode = "batch"
      THEN LET t == EngTableOf(groups)
-          IN /\ printed' = printed \o Take(q.limit, t.recs)
+          IN /\ printed' = IF t.st = "ok" THEN printed \o Take(q.limit, t.recs) ELSE printed    \* a table that fails to build is not printed at all
              /\ status' = t.st
      ELSE UNCHANGED <<printed, status>>
   /\ UNCHANGED <<cvars, running, ji, jidx, fi, li, hooks, consumed, seen, nout, groups, steps>>
